@@ -99,10 +99,32 @@ Theorem chunk_size_roundtrip : forall fuel n,
 Proof. exact hex_parse_hex_of. Qed.
 Print Assumptions chunk_size_roundtrip.
 
-(* Raised HTTPError: the rendered body goes out whole under its own Content-Length *)
-Theorem error_response_body : forall e, error_sent_body e = e_body e.
-Proof. exact error_body_whole. Qed.
+(* Raised HTTPError, at EVERY point of the application (generator or plain callable; events as
+   Responder.service sees them).
+   (1) As long as no head has been sent -- i.e. the error is raised while the app is called, before
+       start_response, after start_response (with or without a declared Content-Length), or after
+       any number of idle (empty) yields -- the client parses exactly the error: its status, a
+       Content-Length equal to the rendered body, that body whole, response complete.  Whatever
+       status / Content-Length the app had declared is replaced.
+   (2) Once a non-empty piece has been yielded the head is on the wire and the error can no longer
+       be rendered: the outcome is exactly that of the same application simply stopping at that
+       point -- the original status, the bytes yielded so far (cut at a declared Content-Length);
+       complete iff chunked (terminating chunk) or the declared length was reached, otherwise the
+       client is left with an incomplete response; the error status is never shown. *)
+Theorem error_response_body :
+  (forall evs est eb, forallb idle_ev evs = true ->
+     client_view (serve_app (evs ++ [EvRaise est eb])) = (est, Some (Z.of_nat (length eb)), eb, true)) /\
+  (forall st cl ys est eb, (exists y, In y ys /\ y <> []) ->
+     serve_app (EvStart st cl :: map EvYield ys ++ [EvRaise est eb]) = serve_app (EvStart st cl :: map EvYield ys) /\
+     rs_status (serve_app (EvStart st cl :: map EvYield ys ++ [EvRaise est eb])) = st /\
+     rs_headed (serve_app (EvStart st cl :: map EvYield ys ++ [EvRaise est eb])) = true).
+Proof. exact error_response_lemma. Qed.
 Print Assumptions error_response_body.
+
+(* the rendered body is never cut by its own Content-Length *)
+Theorem error_body_not_truncated : forall e, error_sent_body e = e_body e.
+Proof. exact error_body_whole. Qed.
+Print Assumptions error_body_not_truncated.
 
 (* non-vacuity *)
 Example c30_examples :
@@ -117,5 +139,11 @@ Example c30_examples :
   parse_query [107;61;118;43;119;38;120;61;97;37;50;54;98] = [([107], [118;32;119]); ([120], [97;38;98])] /\
   (* packChunk: "2\r\nab\r\n" ... "0\r\n\r\n" *)
   chunked_body [[97;98]; []; [99]] = [50;13;10;97;98;13;10;49;13;10;99;13;10;48;13;10;13;10] /\
-  dechunk 5 ([50;13;10;97;98;13;10;49;13;10;99;13;10;48;13;10;13;10] ++ [72]) [] = Done [97;98;99] [72].
+  dechunk 5 ([50;13;10;97;98;13;10;49;13;10;99;13;10;48;13;10;13;10] ++ [72]) [] = Done [97;98;99] [72] /\
+  (* start_response(200, Content-Length 5), idle yield, HTTPError 404 "nf" -> the error *)
+  client_view (serve_app [EvStart 200 (Some 5); EvYield []; EvRaise 404 [110;102]]) = (404, Some 2, [110;102], true) /\
+  (* ... after 2 of 5 declared bytes: original status, incomplete *)
+  client_view (serve_app [EvStart 200 (Some 5); EvYield [97;98]; EvRaise 404 [110;102]]) = (200, Some 5, [97;98], false) /\
+  (* ... chunked: original status, the bytes so far, terminated *)
+  client_view (serve_app [EvStart 200 None; EvYield [97;98]; EvRaise 404 [110;102]]) = (200, None, [97;98], true).
 Proof. vm_compute. repeat split; reflexivity. Qed.
